@@ -214,10 +214,13 @@ def standard_parsing_functions(Block: Any, Tx: Any) -> list[Any]:
 
     def parse_int_6(f: IO[bytes]) -> int:
         b = f.read(6) + b"\0\0"
-        return struct.unpack(b, "<L")[0]  # type: ignore[arg-type,no-any-return]
+        return struct.unpack("<Q", b)[0]  # type: ignore[no-any-return]
 
     def stream_int_6(f: IO[bytes], v: int) -> None:
-        f.write(struct.pack(v, "<L")[:6])  # type: ignore[arg-type]
+        b = struct.pack("<Q", v)
+        if b[6:] != b"\0\0":
+            raise struct.error("argument out of range for a 6-byte integer")
+        f.write(b[:6])
 
     more_parsing = [
         ("A", (PeerAddress.parse, lambda f, peer_addr: peer_addr.stream(f))),
